@@ -55,7 +55,7 @@ def gen_graph(seed, idx, max_files=6):
                 if r.random() < 0.2 and not relp.startswith(".."):
                     relp = "./" + relp
                 pad = r.choice(["", "  ", "\t"])
-                lines.append(f"{pad}@include {relp}" + r.choice(["", " ", ""]))
+                lines.append(f"{pad}@include {relp}" + r.choice(["", " ", "", "", " // part two", "  // see notes.bard", " //x"]))
             elif k < 0.93:
                 lines.append("@include")
             elif k < 0.95:
@@ -217,6 +217,8 @@ def substitute(files, path, stack):
     for l in files[path].split("\n"):
         if l.strip().startswith("@include"):
             arg = l.strip()[8:].strip()
+            if "//" in arg:
+                arg = arg[:arg.index("//")].strip()      # a trailing comment is not part of the path (the generator writes no // inside paths)
             if not arg:
                 return "noPath"
             if " " in arg:
@@ -238,6 +240,8 @@ def first_missing(files, path, stack):
     for l in files[path].split("\n"):
         if l.strip().startswith("@include"):
             arg = l.strip()[8:].strip()
+            if "//" in arg:
+                arg = arg[:arg.index("//")].strip()
             if not arg or " " in arg:
                 return None
             m = first_missing(files, os.path.join(os.path.dirname(path), arg), stack + [path])
